@@ -595,3 +595,26 @@ Proof.
   rewrite (ige_decrypt_encrypt_ok key iv data n EO DE Hiv Hd Oiv Od), Hcl. reflexivity.
 Qed.
 End TopEDok.
+
+(* ---- histories: the answer to a call does not depend on the calls made before (or after) it ---- *)
+Lemma run_history_nth E D pre c post :
+  nth_error (run_history E D (pre ++ c :: post)) (length pre) = Some (run_call E D c).
+Proof.
+  unfold run_history. rewrite map_app. cbn [map].
+  rewrite nth_error_app2 by (rewrite map_length; lia).
+  rewrite map_length, Nat.sub_diag. reflexivity.
+Qed.
+
+Theorem history_independent (E D : bytes -> bytes -> bytes) :
+  (forall k b, length (E k b) = 16) -> (forall k b, length (D k b) = 16) ->
+  forall pre post key iv data out n,
+  key_len_ok key = true -> length iv = 32 -> length data = 16 * n -> 1 <= n -> length data <= length out ->
+  nth_error (run_history E D (pre ++ CEnc data out key iv :: post)) (length pre)
+    = Some (Done, ige_encrypt E key iv data ++ skipn (length data) out, data) /\
+  nth_error (run_history E D (pre ++ CDec data out key iv :: post)) (length pre)
+    = Some (Done, ige_decrypt D key iv data ++ skipn (length data) out, data).
+Proof.
+  intros EL DL pre post key iv data out n Hk Hiv Hd Hn Ho. rewrite !run_history_nth. cbn [run_call].
+  rewrite (do_encrypt_is_ige E EL key iv data out n), (do_decrypt_is_ige D DL key iv data out n) by assumption.
+  split; reflexivity.
+Qed.
